@@ -57,8 +57,8 @@ add("C04", True,
     "Trusted: the dimension-tracking interpreter in harness/src/hist.rs; raw-arena well-formedness predicate in harness/src/pwl.rs.", "DESIGN.md 6/C04")
 add("C05", True,
     "stateful property-based testing (proptest): after every history step all cached witnesses/verdicts are audited against exact path polytopes; mirror_points fuzzed directly with an exact membership oracle",
-    "After every step of generated histories each stored witness (converted exactly) must satisfy every exact path condition of its node (rebuilt from raw parent links) within the documented 1e-8 tolerance, and no node marked Infeasible may have a region containing a ball of radius 1e-6; mirror_points is called on generated polytopes/start points and every returned column must lie in the polytope. Exploration.",
-    "Trusted: exact path reconstruction from raw links; tolerance 1e-8 + 1e-12 relative for the rounding of a.w.", "DESIGN.md 6/C05")
+    "After every step of generated histories each stored witness (converted exactly) must satisfy every exact path condition of its node (rebuilt from raw parent links) within the documented 1e-8 tolerance, and no node marked Infeasible may have a region containing a ball of radius 1e-6; a third of the histories run with slightly inaccurate LP answers (cfg hook: every 1st..4th LP call returns its point moved 1e-4..1e-7 outside one row), which is what drives the library through its witness-repair branch before anything is cached; mirror_points is called on generated polytopes/start points and every returned column must lie in the polytope. Exploration.",
+    "Trusted: exact path reconstruction from raw links; tolerance 1e-8 + 1e-12 relative for the rounding of a.w; the LP hook (src/linalg/polyhedron.rs, cfg(affinitree_verif)) for the perturbed-answer histories.", "DESIGN.md 6/C05, 6a")
 add("C06", True,
     "property-based testing over generated total-tree pipelines (proptest) with an independent exact feasibility oracle for every surviving node and a brute-force region count of the unpruned twin",
     "For pipelines of apply_func / compose (pruned, unpruned) / elimination on total trees: after every elimination no surviving non-root node may have an exactly empty closed path polytope (exact LP; margin made explicit), no non-root decision a single branch, a second run must leave the arena bit-identical with 0 infeasible LPs, and the final terminal count must lie between the number of regions with a 1e-6 ball and the number of regions not empty by a margin of the unpruned composition. Exploration: <= 10 ops, dims <= 3.",
